@@ -68,7 +68,7 @@ def requires_closure(vfile):
         if f in seen or not os.path.exists(f): continue
         seen.add(f)
         code = strip_comments(open(f).read())
-        for m in re.finditer(r"From\s+Suiron\s+Require\s+(?:Import\s+|Export\s+)?((?:[A-Za-z_][\w.]*\s*)+?)\.(?=\s|$)", code):
+        for m in re.finditer(r"From\s+Suiron\s+Require\s+(?:Import\s+|Export\s+)?((?:[A-Za-z_]\w*(?:\.[A-Za-z_]\w*)*\s*)+?)\.(?=\s|$)", code):
             for mod in m.group(1).split():
                 todo.append(os.path.join(COQ, mod.replace(".", "/") + ".v"))
     return seen
